@@ -55,6 +55,9 @@ def run_case(ctx, rng, index, casedir):
     viol = []
     g = rgfa.gen_rgfa(rng, size="small", id_style="s")
     n = rng.choice([1, 2, rng.randint(3, 20), rng.randint(20, 60)])
+    if rng.random() < 0.02:
+        n = 0
+        sit["zero_record_files"] += 1
     walks = ggaf.make_walks(g, rng, n, maxlen=6, forced=n >= 6)
     lines = [ggaf.make_record(g, rng, w, f"r{index}_{i}", offsets="any", tags="safe").line for i, w in enumerate(walks)]
     # several records per read (supplementary alignments), adjacent and interleaved with other reads
@@ -102,6 +105,8 @@ def run_case(ctx, rng, index, casedir):
     truth = collections.defaultdict(list)
     names = [l.split("\t")[0] for l in lines]
     contigs = list(g.contigs)
+    # phase-set ids are positions: unique within a contig only, and shared by all reads of a block
+    ps_pool = [str(rng.randint(1, 99999)) for _ in range(rng.randint(1, 4))]
     for nm in names:
         r = rng.random()
         if r < 0.2:
@@ -111,7 +116,8 @@ def run_case(ctx, rng, index, casedir):
             if rng.random() < 0.3:
                 row = (nm, "none", "none", rng.choice(contigs))
             else:
-                row = (nm, rng.choice(["H1", "H2"]), str(rng.randint(1, 99999)), rng.choice(contigs))
+                ps = rng.choice(ps_pool) if rng.random() < 0.7 else str(rng.randint(1, 99999))
+                row = (nm, rng.choice(["H1", "H2"]), ps, rng.choice(contigs))
             rows.append(row)
             truth[nm].append(row)
         if k == 2:
@@ -198,4 +204,4 @@ def run_case(ctx, rng, index, casedir):
             if (ps[0][5:], ht[0][5:]) not in allowed:
                 viol.append({"kind": "ps_ht_value", "msg": f"record {nm}: {ps[0]} {ht[0]} but the TSV rows of the read allow {sorted(allowed)}", "witness": wit})
     return {"sigs": sigs, "evals": max(evals, 1), "situations": dict(sit), "violations": viol,
-            "sample": {"records": len(lines), "stable": stable, "tsv_rows": [list(r) for r in rows[:3]], "first": lines[0][:160]}}
+            "sample": {"records": len(lines), "stable": stable, "tsv_rows": [list(r) for r in rows[:3]], "first": (lines[0][:160] if lines else None)}}
